@@ -442,6 +442,39 @@ func (p *Plan) valueTypeWith(t gram.Term, byRule map[int][]int) string {
 	return "[]" + base
 }
 
+// ClashName returns the name of an imported package that appears in a rule
+// type of the plan ("big" or "time"), or "".
+func (p *Plan) ClashName() string {
+	for _, c := range p.RuleType {
+		switch c.Type {
+		case "*big.Int":
+			return "big"
+		case "time.Duration":
+			return "time"
+		}
+	}
+	return ""
+}
+
+// HarnessClash renders the harness for a user package that is itself called
+// like one of the packages it imports (pkg = "big" or "time"): the import is
+// renamed locally, and generated code must still qualify the imported types.
+func (p *Plan) HarnessClash(bounds bool, pkg string) string {
+	src := p.Harness(bounds)
+	switch pkg {
+	case "big":
+		src = strings.Replace(src, "\t\"math/big\"\n", "\tmbig \"math/big\"\n", 1)
+		src = strings.ReplaceAll(src, "big.Int", "mbig.Int")
+		src = strings.ReplaceAll(src, "big.NewInt", "mbig.NewInt")
+		src = strings.ReplaceAll(src, "mmbig.", "mbig.")
+	case "time":
+		src = strings.Replace(src, "\t\"time\"\n", "\tmtime \"time\"\n", 1)
+		src = strings.ReplaceAll(src, "time.Duration", "mtime.Duration")
+		src = strings.ReplaceAll(src, "mmtime.", "mtime.")
+	}
+	return src
+}
+
 // Harness renders harness.go for the plan.
 func (p *Plan) Harness(bounds bool) string {
 	var sb strings.Builder
